@@ -35,6 +35,9 @@ type Obligation struct {
 	Comment string
 	AutoFrame string // key of the speculative loop frame this obligation checks
 	Parts     []framePart // frame obligations of one return, decided together; split only when the conjunction fails
+	AutoKeys   []string   // speculative loop-frame keys checked together (aligned with Parts)
+	FailedAuto []string   // those of AutoKeys whose condition did not discharge
+	quickOnly  bool
 
 	replayConfirmed bool
 	replayNote      string
@@ -365,13 +368,35 @@ func (o *Obligation) Solve(timeoutS int) {
 		o.Result = raceSolve(text, 2, []string{"z3-new"})
 		return
 	}
-	r := raceSolve(text, min(3, timeoutS), []string{"z3-new"})
-	if r.Status != "sat" && r.Status != "unsat" {
+	first := min(3, timeoutS)
+	if o.quickOnly {
+		first = min(6, timeoutS)
+	}
+	r := raceSolve(text, first, []string{"z3-new"})
+	if r.Status != "sat" && r.Status != "unsat" && !o.quickOnly {
 		r2 := raceSolve(text, timeoutS, nil)
 		r2.Ms += r.Ms
 		r = r2
 	}
-	if r.Status != "unsat" && len(o.Parts) > 1 {
+	if r.Status != "unsat" && len(o.AutoKeys) > 0 {
+		// speculative loop frames: find out which ones do not hold (they are dropped and the function is verified again)
+		total := r.Ms
+		for i, pt := range o.Parts {
+			po := *o
+			po.Parts, po.AutoKeys = nil, nil
+			po.Goal = pt.Goal
+			po.quickOnly = true // dropping a speculative frame is always sound: no need to try hard
+			po.Solve(timeoutS)
+			total += po.Result.Ms
+			if po.Result.Status != "unsat" {
+				o.FailedAuto = append(o.FailedAuto, o.AutoKeys[i])
+			}
+		}
+		if len(o.FailedAuto) == 0 {
+			r = &SolveResult{Solver: "split", Status: "unsat"}
+		}
+		r.Ms = total
+	} else if r.Status != "unsat" && len(o.Parts) > 1 {
 		// the conjunction of the frame conditions did not discharge: decide each location class on its own
 		// and report the first one that fails (all of them pass = the conjunction holds)
 		total := r.Ms
